@@ -30,6 +30,11 @@ func main() {
 	var err error
 	if os.Getenv("ENGINE") == "gotext" {
 		fm := fontscan.NewFontMap(nil)
+		if os.Getenv("SYSFONTS") != "" {
+			if e := fm.UseSystemFonts("/tmp/c11"); e != nil {
+				panic(e)
+			}
+		}
 		for _, p := range []string{"/repo/resources_test/AHEM____.TTF", "/usr/share/fonts/truetype/dejavu/DejaVuSans.ttf"} {
 			f, e := os.Open(p)
 			if e != nil {
